@@ -340,6 +340,9 @@ func famMeta(sh *Shards, n int, stats map[string]int) error {
 		{[4]float32{-3e38, -1, 3e38, 1}}, {[4]float32{0, -3.4e38, 1, 3.4e38}},
 		{[4]float32{-math.MaxFloat32, -math.MaxFloat32, math.MaxFloat32, math.MaxFloat32}},
 		{[4]float32{3e38, -3e38, 3.4e38, -2e38}}, {[4]float32{-1e-45, -1e-45, 1e-45, 1e-45}},
+		// the same infinity at both ends of an axis (ordered by <=, but not a viewBox), each axis, each sign, and all four
+		{[4]float32{inf, 0, inf, 1}}, {[4]float32{-inf, 0, -inf, 1}}, {[4]float32{0, inf, 1, inf}}, {[4]float32{0, -inf, 1, -inf}},
+		{[4]float32{inf, inf, inf, inf}}, {[4]float32{-inf, -inf, inf, inf}},
 		// signalling NaNs (quiet bit clear), either sign, in each position
 		{[4]float32{fbits(0x7f800004), 0, 1, 1}}, {[4]float32{0, fbits(0x7fa00000), 1, 1}},
 		{[4]float32{0, 0, fbits(0xff800004), 1}}, {[4]float32{0, 0, 1, fbits(0xffbffffc)}}}
@@ -401,6 +404,19 @@ func famMeta(sh *Shards, n int, stats map[string]int) error {
 		}
 		emit(fmt.Sprintf("meta/vb%d/len2", vi), stream(1, 2, [][]byte{vbChunk(vb.v, [4]int{2, 2, 2, 2}, 0, 2)}, tails[1]))
 		emit(fmt.Sprintf("meta/vb%d/len4", vi), stream(1, 4, [][]byte{vbChunk(vb.v, [4]int{4, 1, 2, 4}, 0, 4)}, tails[2]))
+	}
+	// a viewBox chunk that holds only one, two or three whole coordinates (of every width) and says so in its length, at
+	// the end of the input and followed by a body
+	for have := 0; have < 4; have++ {
+		for wc := 0; wc < 3; wc++ {
+			body := []byte{0x00}
+			for i := 0; i < have; i++ {
+				body = append(body, coordBytes([]float32{-10, -10.5, 33.3}[(i+wc)%3], []int{1, 2, 4}[(i+wc)%3])...)
+			}
+			ch := append(natBytes(uint32(len(body)), 1), body...)
+			emit(fmt.Sprintf("meta/vb-short/have%d/w%d/eof", have, wc), stream(1, 1, [][]byte{ch}, nil))
+			emit(fmt.Sprintf("meta/vb-short/have%d/w%d", have, wc), stream(1, 1, [][]byte{ch}, tails[1]))
+		}
 	}
 	// palette chunks
 	colorGen := func(format int, class int) func(i int) []byte {
